@@ -1,6 +1,7 @@
 import Wax.Proofs.CapTile
 import Wax.Proofs.HirEncode
 import Wax.Walk
+import Wax.Proofs.HirRuns
 /-!
 C04 for COMBINATORS: `wax::any` "groups all captures and therefore only exposes the complete text
 of a match".  The model of `token::any` is an alternation of the member trees at the top level
@@ -44,6 +45,39 @@ theorem any_caps_complete {σ : Sem} {ts : List Tok} {r : Re} {s : Str} {caps : 
     subst hh
     rw [encodeTop_eq] at he
     obtain ⟨us, ht⟩ := exec_tiling he
+    have hc : ∀ t ∈ (Tok.alt ⟨0, 0⟩ ts).concatenation, t.isCat = false := by
+      intro t ht'; simp [Tok.concatenation] at ht'; subst ht'; rfl
+    have hlen := ht.len
+    simp only [topRs, Tok.concatenation, encodeList_length] at hlen
+    match us, hlen with
+    | [u], _ =>
+      have hs : s = u := by simpa using ht.cover
+      subst hs
+      have := nontree_capture_segment hc ht (e := 0) (t := .alt ⟨0, 0⟩ ts) (u := s) rfl rfl
+        (fun _ _ h => by cases h) rfl
+      have hrl := caps_length_top hc ht
+      simp only [Tok.concatenation, List.filter, Tok.capturing, List.length_cons, List.length_nil] at hrl
+      simp only [capIdx, List.take_zero, List.filter_nil, List.length_nil] at this
+      match rest, hrl, this with
+      | [x], _, this =>
+        simp only [List.getElem?_cons_zero, Option.some.injEq] at this
+        subst this; rfl
+
+/-- the same **through the normalisation of regex-syntax** (what the crate's engine runs): whatever
+    captures the match model reports for the program of a combinator, they are `[whole, whole]` -/
+theorem any_caps_complete_model {orbit : Char → List Char} {σ : Sem} {ts : List Tok} {r : Re} {s : Str}
+    {caps : List (Option Str)} (h : anyProgram ts = some r) (hh : HirHyp orbit σ r)
+    (he : (r.hirNorm orbit σ).exec σ s = some caps) : caps = [some s, some s] := by
+  have hts : ts ≠ [] := by
+    intro e; subst e; simp [anyProgram] at h
+  rw [anyProgram_eq hts] at h
+  cases h
+  obtain ⟨_, _, hd, _⟩ := exec_sound he
+  match caps, hd with
+  | c0 :: rest, hd =>
+    simp only [List.head?_cons, Option.some.injEq] at hd
+    subst hd
+    obtain ⟨us, ht⟩ := model_tok_tiling hh he
     have hc : ∀ t ∈ (Tok.alt ⟨0, 0⟩ ts).concatenation, t.isCat = false := by
       intro t ht'; simp [Tok.concatenation] at ht'; subst ht'; rfl
     have hlen := ht.len
